@@ -80,6 +80,30 @@ def c_tp(ctx, it, cfg):
         ctx.prove('respecify-as-%s/flag-and-schedule-follow' % f2, and_(b.fields['_isIsothermal'] is (f2 == 'constant'), eq(b(t), _spec(f2, args2, t))))
     if cfg['form'].startswith('break'):
         ctx.prove('canary/breakpoints-in-seconds', eq(a(t), _spec(cfg['form'], args, t * 3600)), expect='refuted')
+        # the same schedule given as numpy arrays that the caller keeps using (a second model, the diffusion model): the arrays are left as they are and every object
+        # built from them follows the schedule
+        ta, Ka = NP.array(list(args[0])), NP.array(list(args[1]))
+        s_t, s_K = snapshot(ta), snapshot(Ka)
+        a3 = TP(ta, Ka)
+        b3 = TP()
+        b3.setTemperatureParameters(ta, Ka)
+        unchanged(ctx, 'array-arguments/callers-break-point-times', s_t, ta)
+        unchanged(ctx, 'array-arguments/callers-break-point-temperatures', s_K, Ka)
+        for name, o in (('first-object', a3), ('second-object-from-the-same-arrays', b3)):
+            ctx.prove('array-arguments/%s-follows-the-schedule' % name, eq(o(t), want))
+        # break points with REPEATED times (an instantaneous step, e.g. a quench) are legitimate input: whatever route the schedule takes, the interpolation
+        # receives exactly the break points the user gave (equivalent specifications give identical runs)
+        k = int(cfg['form'][-1])
+        times = [real(ctx, 'nd_h%d' % i) for i in range(k)]
+        temps = [real(ctx, 'nd_K%d' % i) for i in range(k)]
+        for i in range(k - 1):
+            ctx.assume(le(times[i], times[i + 1]))
+        m2 = new_obj(it, KB, 'PrecipitateBase', temperatureParameters=TP())
+        m2.setTemperature(times, temps)
+        for name, o in (('constructor', TP(times, temps)), ('model.setTemperature', m2.fields['temperatureParameters'])):
+            tp = o.fields['Tparameters']
+            ok = isinstance(tp, tuple) and len(tp) == 2 and all(len(NP.shape(x)) == 1 and NP.shape(x)[0] == k for x in tp)
+            ctx.prove('%s/non-decreasing-break-points-kept-as-given' % name, and_(ok, *[and_(eq(to_arr(tp[0]).get(i), times[i]), eq(to_arr(tp[1]).get(i), temps[i])) for i in range(k)]) if ok else False)
 
 
 @REG.contract('diffusion.TemperatureParameters/constructor-equals-setter', [DP + ':TemperatureParameters.__init__', DP + ':TemperatureParameters.setIsothermalTemperature',
